@@ -176,13 +176,17 @@ FxRules(cfg) ==
     \* trivia that pushes and can still fail: the attempt is abandoned, its push must be undone
     [] cfg = "cmpushf" -> [WHITESPACE |-> Rule("_", Str(<<sp>>)), COMMENT |-> Rule("_", SeqE(<<PushE(Str(<<lt>>)), Str(<<gt>>)>>))]
     [] cfg = "wspushf" -> [WHITESPACE |-> Rule("_", SeqE(<<PushE(Str(<<sp>>)), Opt(Str(<<lt>>)), NotP(Str(<<gt>>))>>))]
+    \* trivia that READS the stack: whether it matches at an offset changes when the stack does, without the offset moving
+    [] cfg = "cmpeek"  -> [COMMENT |-> Rule("_", SeqE(<<PeekT, Str(<<gt>>)>>))]
     [] cfg = "cmpop"   -> [WHITESPACE |-> Rule("_", Str(<<sp>>)), COMMENT |-> Rule("_", SeqE(<<Str(<<lt>>), DropT>>))]
 FxG(body, cfg) == Merge([r |-> Rule("", body), s |-> Rule("", SeqE(<<Str(<<a>>), Ref("u")>>)),
                          u |-> Rule("", SeqE(<<Str(<<a>>), Opt(Str(<<a>>))>>))], FxRules(cfg))
 FxProbes == {SeqE(<<PeekAllT, Eoi>>), SeqE(<<DropT, DropT>>), PopT, SeqE(<<DropT, Eoi>>), NotP(DropT), SeqE(<<PeekT, PeekT>>)}
 FxStackBodies(lz) == {SeqE(<<x, pr>>) : x \in TrT2(0), pr \in FxProbes}
                      \cup {SeqE(<<PushLit(<<a>>), x, pr>>) : x \in TrT1 \cup Un(TrAtoms), pr \in FxProbes}
-FamTrivFx(lz) == {FxG(x, cfg) : x \in TrT2(0), cfg \in {"cmr", "wsr", "cmrc", "wsrc", "wsna", "cmnot"}}
+FxPeekBodies == {SeqE(<<Str(<<a>>), PushLit(<<lt>>), Str(<<a>>), DropT>>), SeqE(<<Str(<<a>>), PushLit(<<lt>>), Ref("s")>>), SeqE(<<PushLit(<<lt>>), Str(<<a>>), Str(<<a>>), PopT>>),
+                 SeqE(<<Str(<<a>>), PushLit(<<lt>>), Str(<<a>>), DropT, Str(<<a>>)>>), SeqE(<<Star(SeqE(<<Str(<<a>>), PushLit(<<lt>>)>>)), Eoi>>), SeqE(<<Str(<<a>>), Opt(PushLit(<<lt>>)), Str(<<a>>)>>)}
+FamTrivFx(lz) == {FxG(x, cfg) : x \in TrT2(0), cfg \in {"cmr", "wsr", "cmrc", "wsrc", "wsna", "cmnot"}} \cup {FxG(x, "cmpeek") : x \in FxPeekBodies}
                  \cup {FxG(x, cfg) : x \in FxStackBodies(0), cfg \in {"wspush", "wspushm", "cmpop", "cmpushf", "wspushf"}}
 
 \* ---- family "ci": case-insensitive literals fold ASCII letters only (C03, C12, C02) -----------------
@@ -203,8 +207,8 @@ CiAlpha == {kk, KK, kelvin, ss, SS, longs, eszett, Eszett}
 \*   also where trivia sits at the edge of the repetition
 BdOperands == {Str(<<a>>), Ref("s"), SeqE(<<Str(<<a>>), Opt(Str(<<a>>))>>)}
 BdReps(x) == {Exact(x, n) : n \in 0..2} \cup {MinR(x, n) : n \in 0..2} \cup {MaxR(x, n) : n \in 0..2}
-             \cup {MinMax(x, lo, hi) : lo \in 0..2, hi \in 0..3}
-BdWF(e) == e.k # "minmax" \/ (e.m <= e.n /\ e.n - e.m <= 2)
+             \cup {MinMax(x, lo, hi) : lo \in 0..2, hi \in 0..3} \cup {MinMax(x, 0, 5), MinMax(x, 1, 6), MaxR(x, 5)}    \* and a long optional tail
+BdWF(e) == e.k # "minmax" \/ (e.m <= e.n /\ (e.n - e.m <= 2 \/ e.n >= 5))
 BdBodies(lz) == UNION {{rp, SeqE(<<Str(<<a>>), rp, Str(<<a>>)>>), SeqE(<<rp, Str(<<a>>)>>), SeqE(<<Str(<<a>>), rp>>), SeqE(<<rp, Eoi>>), Opt(SeqE(<<rp, Ref("s")>>))}
                        : rp \in UNION {{y \in BdReps(x) : BdWF(y)} : x \in BdOperands}}
 FamBounds(lz) == {TrG(x, m0, "", "", cfg) : x \in BdBodies(0), m0 \in {"", "@"}, cfg \in {"none", "ws", "WS", "cm"}}
@@ -230,6 +234,12 @@ ClsChoices(lz) == {AltE(<<x, y>>) : x \in ClsFirst, y \in ClsRest} \cup {AltE(<<
                   \cup {AltE(<<y, x, z>>) : x \in ClsFirst, y \in {Str(<<sp>>), Str(<<A, a>>)}, z \in ClsRest}
 FamSqCls(lz) == {[r |-> Rule(m, bd)] : m \in {"", "@"}, bd \in UNION {{ch, Plus(ch), SeqE(<<ch, Eoi>>)} : ch \in ClsChoices(0)}}
 
+\* ---- family "pushalt": PUSH( sequence that produces pairs and can still fail ) as an alternative that is abandoned ------------
+PaX == {Str(<<b>>), Ref("s"), SeqE(<<Str(<<b>>), Ref("s")>>)}
+PaY == {Ref("s"), SeqE(<<Ref("s"), Ref("s")>>), Str(<<a>>), SeqE(<<Ref("s"), PopT>>)}
+PaAlts(lz) == {AltE(<<PushE(SeqE(<<Ref("s"), x>>)), y>>) : x \in PaX, y \in PaY} \cup {AltE(<<SeqE(<<PushE(SeqE(<<Ref("s"), x>>)), Str(<<A>>)>>), y>>) : x \in PaX, y \in PaY}
+FamPushAlt(lz) == {[r |-> Rule(m, bd), s |-> Rule("", SBody)] : m \in {"", "@", "$"}, bd \in UNION {{ch, SeqE(<<ch, Opt(PeekT)>>), Star(ch), Opt(ch)} : ch \in PaAlts(0)}}
+
 \* ---- family "tags": C01 (tags are compared between interpreter and generated code) ----
 \*   r = { BODY }   s = { "a" ~ "b"? }   v = _{ #t3 = s }     + silent WHITESPACE
 TagAtoms == {Tag("t1", Ref("s")), Tag("t2", SeqE(<<Ref("s"), Str(<<b>>)>>)), Tag("t1", AltE(<<Ref("t"), Ref("s")>>)),
@@ -247,7 +257,7 @@ FamTags(lz) == {TagG(x, ws) : x \in TagT2(0) \cup TagT3(0), ws \in BOOLEAN}
 \* squash_choice: choices of literals / insensitive literals / ranges / classes, every order, shared prefixes
 SqAtoms  == {Str(<<a>>), Str(<<b>>), Str(<<a, b>>), Str(<<b, a>>), IStr(<<a>>), IStr(<<a, b>>), IStr(<<a, b, a>>), Str(<<a, b, a>>), Rng(a, b),
              Cls("ASCII_ALPHA_UPPER"), Ref("q"), Str(<<>>), IStr(<<>>),
-             Cls("ASCII_ALPHA"), Str(<<sp>>)}      \* (" ": a literal outside every class) a built-in that is itself a choice of ranges: inlined and squashed BEFORE the choice around it is
+             Cls("ASCII_ALPHA"), Str(<<sp>>), Str(<<A, b, a>>)}      \* (" ": a literal outside every class) a built-in that is itself a choice of ranges: inlined and squashed BEFORE the choice around it is
 SqAtomsS == {Str(<<a>>), Str(<<a, b>>), IStr(<<b>>), Rng(a, a), IStr(<<a, b, a>>), Str(<<>>)}
 SqChoices(lz) == {AltE(<<x, y>>) : x \in SqAtoms, y \in SqAtoms} \cup {AltE(<<x, y, z>>) : x \in SqAtomsS, y \in SqAtomsS, z \in SqAtomsS}
              \cup {AltE(<<x, AltE(<<y, z>>)>>) : x \in SqAtomsS, y \in SqAtomsS, z \in {Str(<<b>>), Ref("q")}}
@@ -258,7 +268,8 @@ SkTargets == {Str(<<b>>), AltE(<<Str(<<b>>), Str(<<a, b>>)>>), Ref("q"), AltE(<<
               Ref("k"), Ref("z"), AltE(<<Ref("k"), Str(<<A>>)>>),
               SeqE(<<Str(<<a>>), Str(<<b>>)>>), AltE(<<Str(<<b>>), AltE(<<Str(<<a, a>>), Str(<<sp>>)>>)>>),
               \* case-insensitive terminators (a pass that reads terminators back from a squashed choice must keep their case flag)
-              IStr(<<a>>), AltE(<<IStr(<<a, b>>), Str(<<sp>>)>>), AltE(<<Str(<<b>>), IStr(<<a>>)>>)}
+              IStr(<<a>>), AltE(<<IStr(<<a, b>>), Str(<<sp>>)>>), AltE(<<Str(<<b>>), IStr(<<a>>)>>),
+              Ref("n"), AltE(<<Ref("n"), Str(<<b>>)>>)}
 SkForms(x) == {Star(SeqE(<<NotP(x), AnyC>>)), Star(SeqE(<<NotP(x), AnyC, Opt(Str(<<a>>))>>)), Plus(SeqE(<<NotP(x), AnyC>>)),
                Star(SeqE(<<NotP(x), Rng(a, b)>>))}
 SkBodies(lz) == UNION {{f, SeqE(<<f, Opt(Str(<<b>>))>>), SeqE(<<Str(<<a>>), f, Eoi>>), SeqE(<<f, Ref("s")>>)} : f \in UNION {SkForms(x) : x \in SkTargets}}
@@ -276,14 +287,18 @@ OptTriv(cfg) ==
     [] cfg = "WS|"  -> [WHITESPACE |-> Rule("", AltE(<<Str(<<sp>>), Str(<<b, b>>)>>))]
     [] cfg = "cm"   -> [COMMENT |-> Rule("_", SeqE(<<Str(<<sp>>), Opt(Str(<<sp>>))>>))]        \* fused into SKIP
     [] cfg = "ws+cm" -> [WHITESPACE |-> Rule("_", Str(<<sp>>)), COMMENT |-> Rule("_", Str(<<b, b>>))]
+    \* a silent choice WHITESPACE next to a NON-silent COMMENT: nothing may be fused, comments stay trivia
+    [] cfg = "ws|+CM" -> [WHITESPACE |-> Rule("_", AltE(<<Str(<<sp>>), Str(<<b, b>>)>>)), COMMENT |-> Rule("", Str(<<A>>))]
     [] cfg = "ws2"  -> [WHITESPACE |-> Rule("_", AltE(<<SeqE(<<Str(<<b>>), Str(<<b>>)>>), Str(<<sp>>)>>))]   \* atomicity of the body matters
     [] cfg = "cm2"  -> [WHITESPACE |-> Rule("_", Str(<<sp>>)), COMMENT |-> Rule("_", SeqE(<<Str(<<b>>), Str(<<b>>)>>))]
-OptTrivs == {"none", "ws", "ws|", "WS|", "cm", "ws+cm", "ws2", "cm2"}
+OptTrivs == {"none", "ws", "ws|", "WS|", "cm", "ws+cm", "ws2", "cm2", "ws|+CM"}
 QBody == AltE(<<Str(<<b>>), Str(<<a, b>>)>>)
 \* k (before r) and z (after r): rules that are themselves the skip idiom; q2: a silent choice with a rule alternative
 KBody == SeqE(<<Star(SeqE(<<NotP(Str(<<b>>)), AnyC>>)), Opt(Str(<<b>>))>>)
 OptG(body, m, qm, cfg) == Merge([r |-> Rule(m, body), q |-> Rule(qm, QBody), s |-> Rule("", SBody), k |-> Rule("@", KBody), z |-> Rule(qm, KBody),
-                                 q2 |-> Rule("_", AltE(<<Str(<<b>>), Ref("s")>>))], OptTriv(cfg))
+                                 q2 |-> Rule("_", AltE(<<Str(<<b>>), Ref("s")>>)),
+                                 n |-> Rule("!", SeqE(<<Str(<<a>>), Str(<<b>>)>>))],      \* a non-atomic terminator: trivia between its literals even inside @
+                                OptTriv(cfg))
 FamOptSq  == {OptG(x, m, "_", cfg) : x \in SqBodies(0), m \in {""}, cfg \in {"none", "ws"}}
 FamOptSk  == {OptG(x, m, qm, cfg) : x \in SkBodies(0), m \in {"", "@", "!", "$"}, qm \in {"_", ""}, cfg \in {"none", "ws", "cm"}}
 \* ---- family "nl": C13 (failures on multi-line inputs: at offset 0, at the end, on an empty line,
@@ -313,7 +328,7 @@ RefsOf(e) ==
     [] OTHER -> {}
 RefsDefined(gr) == \A n \in DOMAIN gr : RefsOf(gr[n].body) \subseteq DOMAIN gr
 FamOptInl(lz) == {x \in {OptG(x, m, qm, cfg) : x \in InlBodies(0), m \in {"", "@", "$"}, qm \in {"_", ""}, cfg \in OptTrivs} : RefsDefined(x)}
-FamOptTrv(lz) == {OptG(x, "", "_", cfg) : x \in TrT2(0), cfg \in {"ws|", "WS|", "cm"}}
+FamOptTrv(lz) == {OptG(x, "", "_", cfg) : x \in TrT2(0), cfg \in {"ws|", "WS|", "cm", "ws|+CM"}}
 
 RECURSIVE UsesSoi(_)
 UsesSoi(e) ==
@@ -343,11 +358,13 @@ Grammars ==
     [] Family = "stackclear" -> FamStackClear(0)
     [] Family = "tags"    -> FamTags(0)
     [] Family = "trivfx"  -> FamTrivFx(0)
+    [] Family = "trivpeek" -> {FxG(x, "cmpeek") : x \in FxPeekBodies}
     [] Family = "ci"      -> FamCi(0)
     [] Family = "bounds"  -> FamBounds(0)
     [] Family = "sqesc"   -> FamSqEsc(0)
     [] Family = "sqws"    -> FamSqWs(0)
     [] Family = "sqcls"   -> FamSqCls(0)
+    [] Family = "pushalt" -> FamPushAlt(0)
 
 Alpha ==
   CASE Family \in {"core2", "core3", "core2nosoi", "core3nosoi"} -> CoreAlpha
@@ -359,11 +376,12 @@ Alpha ==
     [] Family = "opttrv" -> {a, b, sp}
     [] Family = "nl" -> {a, b, nl, sp}
     [] Family = "names" -> {a, b, sp}
-    [] Family = "trivfx" -> TrAlpha
+    [] Family \in {"trivfx", "trivpeek"} -> TrAlpha
     [] Family = "bounds" -> {a, sp, lt, gt}
     [] Family = "sqesc" -> {nl, tab, bsl, nn, tt, a}
     [] Family = "sqws" -> {a, sp, tab, nl}
     [] Family = "sqcls" -> {a, sp, A, one}
+    [] Family = "pushalt" -> {a, b, A}
     [] Family = "ci" -> CiAlpha
 
 Inputs == Strings(Alpha, MaxLen)
